@@ -202,6 +202,13 @@ func c14Cases() []c14Case {
 		c14Case{desc: "style-object:url-value", tpl: `<p style="color: red" :style="{backgroundImage: 'url(https://cdn.example.com/a.png)'}">t</p>`, data: map[string]any{}, want: map[string]string{"style": ""}, style: map[string]string{"color": "red", "background-image": "url(https://cdn.example.com/a.png)"}},
 		c14Case{desc: "class-object:ternary-value", tpl: `<p class="btn" :class="{active: kind == 'primary' ? true : false, round: r}">t</p>`, data: map[string]any{"kind": "primary", "r": true}, want: map[string]string{"class": "btn active round"}},
 		c14Case{desc: "class-object:ternary-value-false", tpl: `<p class="btn" :class="{active: kind == 'primary' ? true : false, round: r}">t</p>`, data: map[string]any{"kind": "other", "r": true}, want: map[string]string{"class": "btn round"}},
+		// a string literal inside an object may contain the OTHER quote character (an apostrophe in a double-quoted name): it is still one
+		// literal, and the comma after it still separates two entries
+		c14Case{desc: "class-object:apostrophe-in-double-quoted-literal", tpl: `<p :class="{'is-mine': owner == &quot;o'brien&quot;, 'is-open': open}">t</p>`, data: map[string]any{"owner": "o'brien", "open": true}, want: map[string]string{"class": "is-mine is-open"}},
+		c14Case{desc: "class-object:apostrophe-literal-false", tpl: `<p class="row" :class="{'is-mine': owner == &quot;o'brien&quot;, 'is-open': open}">t</p>`, data: map[string]any{"owner": "smith", "open": true}, want: map[string]string{"class": "row is-open"}},
+		c14Case{desc: "class-object:double-quote-in-single-quoted-literal", tpl: `<p :class="{a: s != '&quot;', b: yes, c: s == '&quot;,'}">t</p>`, data: map[string]any{"s": "x", "yes": true}, want: map[string]string{"class": "a b"}},
+		c14Case{desc: "class-object:two-apostrophes", tpl: `<p :class="{a: s == &quot;rock'n'roll&quot;, b: yes}">t</p>`, data: map[string]any{"s": "rock'n'roll", "yes": true}, want: map[string]string{"class": "a b"}},
+		c14Case{desc: "style-object:apostrophe-in-double-quoted-value", tpl: `<p style="margin:0;color:blue" :style="{content: &quot;it's&quot;, color: tone}">t</p>`, data: map[string]any{"tone": "red"}, want: map[string]string{"style": ""}, style: map[string]string{"margin": "0", "content": "it's", "color": "red"}},
 		c14Case{desc: "style-object:hyphen-key", tpl: `<p :style="{'font-size': s}">t</p>`, data: map[string]any{"s": "9px"}, want: map[string]string{"style": ""}, style: map[string]string{"font-size": "9px"}},
 		c14Case{desc: "style-bound-string", tpl: `<p style="color: red" :style="s">t</p>`, data: map[string]any{"s": "color: green; top: 1px"}, want: map[string]string{"style": ""}, style: map[string]string{"color": "green", "top": "1px"}},
 		c14Case{desc: "style-bound-nonstring", tpl: `<p style="color: red" :style="n">t</p>`, data: map[string]any{"n": 5}, want: map[string]string{"style": ""}, style: map[string]string{"color": "red"}},
